@@ -78,6 +78,7 @@ type pathState struct {
 	known    []knownRegion
 	// budgets / ghost state
 	steps      int
+	hangBudget int // steps after which "does not return" is reported (0 = off)
 	allocBytes uint64
 	// results
 	violations []*Violation
